@@ -197,6 +197,8 @@ def c03(run):
     r_codec.run_tokmax(run, P)
     r_codec.run_marker(run, P)
     r_codec.run_option_limits(run, P)
+    from rules import r_misc12 as _m12
+    _m12.run_marker_whole_byte(run, P)
     r_parsegate.run(run, P)
     r_parsegate.run_outputs(run, P)
     r_parsegate.run_verdict(run, P)
@@ -377,6 +379,7 @@ def c06(run):
     r_ownnode.run_queue_key(run, P)
     from rules import r_misc12
     r_misc12.run_timeout_drawn(run, P)
+    r_misc12.run_unlink_before_callout(run, P)
     from rules import r_cnt
     r_cnt.run_counted_queued(run, P)     # a counted Confirmable is queued for retransmission (or un-counted): it cannot vanish without an outcome
     from rules import r_timer
@@ -455,6 +458,8 @@ def c09(run):
     from rules import r_freshlabel
     r_freshlabel.run(run, P)
     from rules import r_elemshift
+    from rules import r_misc12 as _m12
+    _m12.run_filter_field_recorded(run, P)   # a duplicated final response of a block-wise upload is filtered: at most one delivery per transfer
     r_elemshift.run(run, P)              # the sorted list of requested Q-Block2 numbers (and the received-block ranges) are edited by whole elements, in the direction the count says
     run.min_instances('R-RELEASE-ONCE', 5)
     run.assumptions = ASSUME_COMMON + ["body integrity, tiling, at-most-once delivery, token hiding and size fitting (arithmetic over runtime lengths and schedules) are NOT decided",
@@ -501,6 +506,8 @@ def c19(run):
     r_route.run_sni_cache(run, P)
     r_route.run_establishers(run, P)
     from rules import r_expiry
+    from rules import r_misc12 as _m12
+    _m12.run_sibling_deadline_tests(run, P)   # the (D)TLS retransmission timer is asked the same question for client and server sessions
     r_expiry.run(run, P)                 # half-open sessions are cleared down when they are old, not while their handshake is in progress
     from rules import r_delayq
     r_delayq.run(run, P)
@@ -527,6 +534,7 @@ def c14(run):
     r_oscrole.run_assoc_source(run, P)
     from rules import r_misc12
     r_misc12.run_weak_lookup(run, P)
+    r_misc12.run_rekey_complete(run, P)
     r_oscsplit.run_flag_reach(run, P)
     r_oscsplit.run_match_acc(run, P)
     r_oscsplit.run_outer_discard(run, P)
@@ -636,6 +644,9 @@ def c07(run):
     from rules import r_width
     r_width.run_c(run, P)        # the 'none yet' sentinels of the duplicate filter (last_con_mid / last_ack_mid) stay outside the mid space
     r_response.run_async_pending(run, P)
+    from rules import r_misc12 as _m12
+    _m12.run_filter_field_recorded(run, P)
+    _m12.run_rst_for_any_type(run, P)
     from rules import r_pairargs
     r_pairargs.run_token_identity(run, P)    # the request a response retires is found by its token, whatever the token's length
     from rules import r_ownnode
